@@ -158,70 +158,133 @@ func (w *World) extractLevels(r *Report) []*exLevel {
 		}
 		// prefix operators are decided before the first operand: explore from the entry as well
 		resEntry := tk.flow(ci, f.Blocks[0], [2]*TState{newTState(kTop()), nil}, nil, nil)
+		// the node types of a level may be allocated in helpers the level function hands its running expression to
+		// (parseInExprRest(expr, not)): their allocations count for the level, operators are read in the level itself
+		scan := []*ssa.Function{f}
 		for _, b := range f.Blocks {
 			for _, in := range b.Instrs {
-				al, ok := in.(*ssa.Alloc)
+				c, ok := in.(*ssa.Call)
 				if !ok {
 					continue
 				}
-				nt := namedOf(al.Type())
-				if nt == nil || nt.Obj().Pkg() == nil || nt.Obj().Pkg().Path() != modRoot+"/ast" {
+				h := c.Call.StaticCallee()
+				if h == nil || h == f || h == next || h == start || seen[h] || h.Blocks == nil || fnPkgPath(h) != modRoot || h.Signature.Recv() == nil || !w.isParserPtr(h.Signature.Recv().Type()) {
 					continue
 				}
-				tname := nt.Obj().Name()
-				fields := allocFieldStores(al)
-				switch tname {
-				case "BinaryExpr", "UnaryExpr":
-					use := res
-					if tname == "UnaryExpr" {
-						use = resEntry
-						lv.unary = true
-					} else {
-						lv.binary = true
+				passesExpr := false
+				for _, a := range c.Call.Args[1:] {
+					if w.isAstExpr(a.Type()) {
+						passesExpr = true
 					}
-					opv := fields["Op"]
-					if opv == nil {
-						lv.notes = append(lv.notes, tname+" allocated without Op at "+w.pos(al.Pos()))
+				}
+				if !passesExpr || h.Signature.Results().Len() != 1 {
+					continue
+				}
+				dup := false
+				for _, x := range scan {
+					if x == h {
+						dup = true
+					}
+				}
+				if !dup {
+					scan = append(scan, h)
+				}
+			}
+		}
+		for _, sf := range scan {
+			for _, b := range sf.Blocks {
+				for _, in := range b.Instrs {
+					al, ok := in.(*ssa.Alloc)
+					if !ok {
 						continue
 					}
-					for _, pr := range w.opPairs(tk, use, opv, al) {
-						name := pr[1]
-						if old, dup := lv.ops[pr[0]]; dup && old != name {
-							lv.notes = append(lv.notes, fmt.Sprintf("token %q maps to both %s and %s", pr[0], old, name))
-						}
-						lv.ops[pr[0]] = name
+					nt := namedOf(al.Type())
+					if nt == nil || nt.Obj().Pkg() == nil || nt.Obj().Pkg().Path() != modRoot+"/ast" {
+						continue
 					}
-					// operand parsers
-					for _, fld := range []string{"Right", "Expr"} {
-						if v := fields[fld]; v != nil {
-							if c, ok := v.(*ssa.Call); ok && c.Call.StaticCallee() != nil {
-								lv.rightBy[funcName(c.Call.StaticCallee())] = true
-							} else {
-								lv.rightBy["<"+v.Name()+">"] = true
+					tname := nt.Obj().Name()
+					fields := allocFieldStores(al)
+					if sf != f && (tname == "BinaryExpr" || tname == "UnaryExpr") {
+						lv.notes = append(lv.notes, tname+" allocated in the helper "+funcName(sf)+": its operator cannot be tied to the token read in "+funcName(f))
+						continue
+					}
+					switch tname {
+					case "BinaryExpr", "UnaryExpr":
+						use := res
+						if tname == "UnaryExpr" {
+							use = resEntry
+							lv.unary = true
+						} else {
+							lv.binary = true
+						}
+						opv := fields["Op"]
+						if opv == nil {
+							lv.notes = append(lv.notes, tname+" allocated without Op at "+w.pos(al.Pos()))
+							continue
+						}
+						for _, pr := range w.opPairs(tk, use, opv, al) {
+							name := pr[1]
+							if old, dup := lv.ops[pr[0]]; dup && old != name && !(pr[0] == "IS" || strings.HasPrefix(pr[0], "IS ")) {
+								lv.notes = append(lv.notes, fmt.Sprintf("token %q maps to both %s and %s", pr[0], old, name))
+							}
+							lv.ops[pr[0]] = name
+						}
+						// operand parsers
+						for _, fld := range []string{"Right", "Expr"} {
+							if v := fields[fld]; v != nil {
+								if c, ok := v.(*ssa.Call); ok && c.Call.StaticCallee() != nil {
+									lv.rightBy[funcName(c.Call.StaticCallee())] = true
+								} else {
+									lv.rightBy["<"+v.Name()+">"] = true
+								}
 							}
 						}
-					}
-					if l := fields["Left"]; l != nil {
-						if feedsBack(al, l) {
-							lv.assoc = "left"
-						}
-						if !derivesFromCallOrAlloc(l, first, al) {
-							lv.notes = append(lv.notes, "Left operand of the BinaryExpr at "+w.pos(al.Pos())+" is not the running expression of this level")
-						}
-					}
-				case "InExpr", "BetweenExpr", "IsNullExpr", "IsBoolExpr", "SelectorExpr", "IndexExpr":
-					lv.others[tname] = true
-					for _, fld := range []string{"RightStart", "RightEnd"} {
-						if v := fields[fld]; v != nil {
-							if c, ok := v.(*ssa.Call); ok && c.Call.StaticCallee() != nil {
-								lv.rightBy[funcName(c.Call.StaticCallee())] = true
-							}
-						}
-					}
-					for _, fld := range []string{"Left", "Expr"} {
-						if l := fields[fld]; l != nil && (tname == "SelectorExpr" || tname == "IndexExpr") {
+						if l := fields["Left"]; l != nil {
 							if feedsBack(al, l) {
 								lv.assoc = "left"
+							}
+							if !derivesFromCallOrAlloc(l, first, al) {
+								lv.notes = append(lv.notes, "Left operand of the BinaryExpr at "+w.pos(al.Pos())+" is not the running expression of this level")
+							}
+						}
+					default:
+						// any other expression node of this level: built around the running expression (its Left/Expr field is
+						// the first operand or a node of this level), like InExpr, BetweenExpr, IsNullExpr, SelectorExpr, IndexExpr
+						known := map[string]bool{"InExpr": true, "BetweenExpr": true, "IsNullExpr": true, "IsBoolExpr": true, "SelectorExpr": true, "IndexExpr": true}
+						if !known[tname] {
+							if eo := w.Ast.Types.Scope().Lookup("Expr"); eo == nil {
+								continue
+							} else if ifc, ok := eo.Type().Underlying().(*types.Interface); !ok || !types.Implements(types.NewPointer(nt), ifc) {
+								continue
+							}
+							running := false
+							for _, fld := range []string{"Left", "Expr"} {
+								if l := fields[fld]; l != nil {
+									if sf == f && first != nil && derivesFromCallOrAlloc(l, first, al) {
+										running = true
+									}
+									if _, isParam := stripMakeIface(l).(*ssa.Parameter); sf != f && isParam {
+										running = true
+									}
+								}
+							}
+							if !running {
+								continue
+							}
+						}
+						lv.others[tname] = true
+						for _, fld := range []string{"RightStart", "RightEnd"} {
+							if v := fields[fld]; v != nil {
+								if c, ok := v.(*ssa.Call); ok && c.Call.StaticCallee() != nil {
+									lv.rightBy[funcName(c.Call.StaticCallee())] = true
+								}
+							}
+						}
+						for _, fld := range []string{"Left", "Expr"} {
+							if l := fields[fld]; l != nil && (tname == "SelectorExpr" || tname == "IndexExpr") {
+								if feedsBack(al, l) {
+									lv.assoc = "left"
+								}
 							}
 						}
 					}
@@ -231,6 +294,19 @@ func (w *World) extractLevels(r *Report) []*exLevel {
 		f = next
 	}
 	return levels
+}
+
+func stripMakeIface(v ssa.Value) ssa.Value {
+	for {
+		switch x := v.(type) {
+		case *ssa.MakeInterface:
+			v = x.X
+		case *ssa.ChangeInterface:
+			v = x.X
+		default:
+			return v
+		}
+	}
 }
 
 // allocFieldStores: field name -> value stored right after the allocation (composite literal).
@@ -396,8 +472,27 @@ func ruleC07R1(w *World, r *Report) {
 		}
 		sort.Strings(got)
 		sort.Strings(want)
-		if strings.Join(got, ", ") != strings.Join(want, ", ") {
-			problems = append(problems, fmt.Sprintf("operators [%s], GoogleSQL has [%s] at this level", strings.Join(got, ", "), strings.Join(want, ", ")))
+		// every operator of the reference is there with its constant; an operator beyond the reference is accepted only
+		// where GoogleSQL has operators this parser does not implement yet: the IS family (IS [NOT] DISTINCT FROM,
+		// IS [NOT] UNKNOWN) on the comparison level — a grammar extension there does not regroup anything
+		var opDiff []string
+		for k, v := range ref.ops {
+			if l.ops[k] != v {
+				opDiff = append(opDiff, fmt.Sprintf("%s→%s (parser: %q)", k, v, l.ops[k]))
+			}
+		}
+		for k, v := range l.ops {
+			if _, inRef := ref.ops[k]; inRef {
+				continue
+			}
+			if ref.kind == "comparison" && (k == "IS" || strings.HasPrefix(k, "IS ")) {
+				continue
+			}
+			opDiff = append(opDiff, fmt.Sprintf("extra %s→%s", k, v))
+		}
+		sort.Strings(opDiff)
+		if len(opDiff) > 0 {
+			problems = append(problems, fmt.Sprintf("operators [%s], GoogleSQL has [%s] at this level: %s", strings.Join(got, ", "), strings.Join(want, ", "), strings.Join(opDiff, "; ")))
 		}
 		var oth []string
 		for k := range l.others {
@@ -406,8 +501,25 @@ func ruleC07R1(w *World, r *Report) {
 		sort.Strings(oth)
 		wo := append([]string{}, ref.others...)
 		sort.Strings(wo)
-		if strings.Join(oth, ",") != strings.Join(wo, ",") {
-			problems = append(problems, fmt.Sprintf("other node types %v, expected %v", oth, wo))
+		var othDiff []string
+		for _, k := range wo {
+			if !l.others[k] {
+				othDiff = append(othDiff, "missing "+k)
+			}
+		}
+		for _, k := range oth {
+			inRef := false
+			for _, x := range wo {
+				if x == k {
+					inRef = true
+				}
+			}
+			if !inRef && !(ref.kind == "comparison" && strings.HasPrefix(k, "Is")) {
+				othDiff = append(othDiff, "extra "+k)
+			}
+		}
+		if len(othDiff) > 0 {
+			problems = append(problems, fmt.Sprintf("other node types %v, expected %v (%s)", oth, wo, strings.Join(othDiff, ", ")))
 		}
 		nextName := funcName(l.next)
 		var rb []string
